@@ -1,4 +1,5 @@
 import L21.Props.C01
+import L21.Props.C01L
 import L21.Props.C02
 import L21.Props.C03
 import L21.Props.C10
@@ -11,3 +12,5 @@ import L21.Props.C10
 #print axioms L21.Gds.c01_roundtrip
 #print axioms L21.Gds.c02_grammar
 #print axioms L21.Gds.c10_parser_fuel
+#print axioms L21.Gds.c01_lazy_reader_is_model
+#print axioms L21.Gds.c03_trailing_lazy
